@@ -299,6 +299,36 @@ def malformed_key(clause: str, code_name: str, source: str) -> str:
 # checking one program under one configuration
 
 
+def import_module(source: str):
+    """analysis_lib.make_module, except that the module is registered in sys.modules *while* its body runs, as for a
+    real import (dataclasses and typing look the defining module up there to resolve string annotations; without
+    this every dataclass under `from __future__ import annotations` would fail to import)."""
+    import linecache
+    import secrets
+    import sys
+    import types
+
+    from pyanalyze.analysis_lib import _FakeLoader
+
+    token = secrets.token_hex()
+    name = f"<test input {secrets.token_hex()}>"
+    filename = f"{token}.py"
+    mod = types.ModuleType(name)
+    scope = mod.__dict__
+    scope["__name__"] = name
+    scope["__file__"] = filename
+    scope["__loader__"] = _FakeLoader(source)
+    linecache.lazycache(filename, scope)
+    code = compile(source, filename, "exec")
+    sys.modules[name] = mod
+    try:
+        exec(code, scope)
+    except BaseException:
+        sys.modules.pop(name, None)
+        raise
+    return mod
+
+
 class CheckTimeout(BaseException):
     """raised by the per-check alarm (a BaseException so that pyanalyze's catch-alls do not swallow it)"""
 
@@ -318,15 +348,18 @@ def observe(source: str, config: str, fresh: bool = False):
     kw = dict(CONFIGS[config])
     old = signal.signal(signal.SIGALRM, _on_alarm)
     signal.alarm(CHECK_LIMIT_S)
+    module = None
     try:
-        res = harness.run(source, fresh_checker=fresh, **kw)
+        module = import_module(source)
+        res = harness.run(source, fresh_checker=fresh, module=module, **kw)
     except (KeyboardInterrupt, SystemExit):
         raise
-    except BaseException as e:  # noqa: BLE001 - raised by ast.parse / make_module: the module is out of scope
+    except BaseException as e:  # noqa: BLE001 - raised by ast.parse / the import: the module is out of scope
         return "unimportable", [], {"why": type(e).__name__}
     finally:
         signal.alarm(0)
         signal.signal(signal.SIGALRM, old)
+        harness.forget_module(module)
     found = []
     lines = py_lines(source)
     if isinstance(res.exception, CheckTimeout):
@@ -532,7 +565,7 @@ def check_program(ctx, source: str, feats, origin: str, minimise: bool = True, s
     for f in feats:
         ctx.histo("grammar_productions", f)
     types = collections.Counter(type(n).__name__ for n in ast.walk(tree))
-    if origin == "fuzz":
+    if origin == "fuzz" or origin.startswith("sweep:"):
         types = types - _base_counts()
     for t, n in types.items():
         ctx.histo("ast_node_kinds", t, n)
@@ -553,7 +586,7 @@ def report(ctx, source, config, key, what, target_line=None, minimise=True, shru
     ctx.histo("violations_by_config", config)
     if shrunk_keys is None:
         shrunk_keys = {}
-    if minimise and shrunk_keys.get(key, 0) < 2:
+    if minimise and shrunk_keys.get(key, 0) < 1:
         shrunk_keys[key] = shrunk_keys.get(key, 0) + 1
         small, used = shrink(source, config, key, target_line)
         ctx.count("shrink_rechecks", used)
@@ -575,13 +608,14 @@ def report(ctx, source, config, key, what, target_line=None, minimise=True, shru
 def program_phase(ctx) -> None:
     rng = ctx.rng
     shrunk = {}
-    if True:
-        for i, src in enumerate(REGRESSION):
-            if ctx.mine(i):
-                ctx.count("regression_programs")
-                check_program(ctx, src, [], "regression", minimise=False)
-        if not REGRESSION and ctx.shard == 0:
+    # deterministic part: regression corpus + vocabulary sweeps (independent of the seed)
+    for i, src in enumerate(REGRESSION):
+        if ctx.mine(i):
             ctx.count("regression_programs")
+            check_program(ctx, src, [], "regression", minimise=False)
+    for name, src in fuzzgen.sweep_programs(ctx.mine):
+        ctx.count("sweep_programs")
+        check_program(ctx, src, [], "sweep:" + name, shrunk_keys=shrunk)
     n = ctx.pick(400, 8000)
     n_fuzz = int(n * 0.8)
     for i in range(n):
@@ -612,6 +646,7 @@ def program_phase(ctx) -> None:
 
 
 _TB_RE = re.compile(r"Traceback \(most recent call last\):")
+_ANSI_RE = re.compile(r"\x1b\[[0-9;]*m")
 
 
 def cli_check(path_or_paths, cwd: str):
@@ -621,7 +656,7 @@ def cli_check(path_or_paths, cwd: str):
         p = harness.run_cli(paths, cwd=cwd, timeout=900.0)
     except Exception as e:  # noqa: BLE001
         return f"cli|{type(e).__name__}", f"python -m pyanalyze did not finish: {e!r}"
-    err = p.stderr or ""
+    err = _ANSI_RE.sub("", p.stderr or "")
     # pyanalyze prints internal_error diagnostics (which embed a traceback) as ordinary output: those are the program
     # half's business; here only a traceback that ends the process / a wrong exit status counts
     tail = err[err.rfind("Traceback (most recent call last):"):] if _TB_RE.search(err) else ""
@@ -631,7 +666,8 @@ def cli_check(path_or_paths, cwd: str):
         where, fileline = _frame_key(frames)
         m = re.findall(r"^([A-Za-z_][A-Za-z0-9_.]*(?:Error|Exception|Interrupt|Exit)?)(?::|$)", tail, re.M)
         exc = m[-1].split(".")[-1] if m else "?"
-        return f"cli|exit={p.returncode if crashed else 'traceback'}|{exc}|{where}", f"python -m pyanalyze exit status {p.returncode}; stderr ends: {err[-600:]!r} ({fileline})"
+        return (f"cli|{'exit=' + str(p.returncode) if crashed else 'died-with-traceback'}|{exc}|{where}",
+                f"python -m pyanalyze exit status {p.returncode}; stderr ends: {err[-700:]!r} ({fileline})")
     return None
 
 
